@@ -14,7 +14,7 @@ pkg = "./" + os.path.dirname(target) + "/..."
 wt = tempfile.mkdtemp(prefix="seedconfirm")
 os.rmdir(wt)
 def sh(cmd, **kw):
-    p = subprocess.run(cmd, shell=True, cwd=kw.get("cwd", wt), env=env, stdout=subprocess.PIPE, stderr=subprocess.STDOUT, text=True)
+    p = subprocess.run(cmd, shell=True, cwd=kw.get("cwd", wt), env=env, stdout=subprocess.PIPE, stderr=subprocess.STDOUT, text=True, errors="replace")
     return p.returncode, p.stdout
 rc, out = sh("git -C /repo worktree add -q --detach %s HEAD" % wt, cwd="/")
 res = {}
